@@ -21,6 +21,7 @@ type c18case struct {
 	target string // default relative nested absolute
 	env    string // a MOCKERY_* variable exported while init runs ("" = none)
 	above  string // name of another, valid configuration file in the PARENT directory of the module ("" = none)
+	// "@fsroot": the module directory is a direct child of the file-system root (like a container WORKDIR /app)
 }
 
 func (cs c18case) id() string {
@@ -58,6 +59,8 @@ func C18(c *core.Ctx) error {
 		add(c18case{c18pkg, "absent", "default", "", ab})
 		add(c18case{c18pkg, "content", "default", "", ab})
 	}
+	add(c18case{c18pkg, "absent", "default", "", "@fsroot"})
+	add(c18case{c18pkg, "content", "default", "", "@fsroot"})
 	// the invoking shell's MOCKERY_* overrides are not "the documented defaults": the written file must not depend on them
 	for _, e := range []string{"MOCKERY_FILENAME=ci_mocks.go", "MOCKERY_RECURSIVE=true", "MOCKERY_LOG_LEVEL=debug", "MOCKERY_ALL=false", "MOCKERY_DIR=elsewhere", "MOCKERY_TEMPLATE=matryer",
 		"MOCKERY_FORMATTER=gofmt", "MOCKERY_PKGNAME=envpkg", "MOCKERY_STRUCTNAME=Env{{.InterfaceName}}", "MOCKERY_FORCE_FILE_WRITE=false", "MOCKERY_INCLUDE_INTERFACE_REGEX=Foo", "MOCKERY_REQUIRE_TEMPLATE_SCHEMA_EXISTS=false"} {
@@ -103,7 +106,16 @@ func C18(c *core.Ctx) error {
 		base := filepath.Join(c.Scratch, "w", fmt.Sprint(i))
 		root := base
 		defer os.RemoveAll(base)
-		if cs.above != "" {
+		if cs.above == "@fsroot" {
+			d, err := os.MkdirTemp("/", "mcx-c18-")
+			if err != nil {
+				c.Ev.Assume("the file-system root is not writable here: the case 'module directly below /' was not run")
+				outc[i] = "not-run"
+				return
+			}
+			defer os.RemoveAll(d)
+			root = d
+		} else if cs.above != "" {
 			root = filepath.Join(base, "outer", "inner")
 			// valid, and about another package: if it were used, b would be mocked instead of the named package
 			core.Must(core.WriteTree(filepath.Join(base, "outer"), map[string]string{cs.above: "packages:\n  example.com/m/b:\n    config:\n      all: true\n"}))
